@@ -280,7 +280,7 @@ def pick_ops(ty, ops, k, nkeep):
 RHS_ALL = ['scalar', 'lit', 'tensor', 'slice', 'neg', 'add', 'addslice', 'trans', 'transadd']
 
 def rhs_ok(ty, rk):
-    """integer unary minus is a known defect of the element-wise layer (property C02: the SIMD negate flips the sign bit);
+    """integer unary minus belongs to the element-wise layer (property C02; its SIMD negate was defective when this check was written);
     it is not a view matter, so int destinations do not use it as a right-hand side."""
     return not (ty.kind == 'int' and rk == 'neg')
 
